@@ -274,6 +274,23 @@ def _resolves_from_self(callee, p):
     return False
 
 
+def _subst_aliases(call, aliases):
+    if not aliases:
+        return call
+    import copy
+
+    class T(ast.NodeTransformer):
+        def visit_Name(self, n):
+            if isinstance(n.ctx, ast.Load) and n.id in aliases:
+                return copy.deepcopy(aliases[n.id])
+            return n
+    c2 = copy.deepcopy(call)
+    c2.args = [T().visit(a) for a in c2.args]
+    for k in c2.keywords:
+        k.value = T().visit(k.value)
+    return ast.fix_missing_locations(c2)
+
+
 def protocol(chk, prog, cls, methods):
     batch = cls.lookup("_compute_all")
     if batch is None:
@@ -283,6 +300,46 @@ def protocol(chk, prog, cls, methods):
     batch = desugared(batch)       # enumerate / zip sample loops in index form
     n = 0
     covered = set()
+    # locals that merely name instance attributes, bound once outside the sample loops:  gyr = self.gyr = np.copy(self.gyr);  method, order = self.method, self.order
+    aliases, multi = {}, set()
+    in_loops = {id(x) for lp in ast.walk(batch.node) if isinstance(lp, ast.For) for x in ast.walk(lp) if x is not lp}
+
+    def _note(name, expr):
+        if name in aliases or name in multi:
+            multi.add(name)
+            aliases.pop(name, None)
+        else:
+            aliases[name] = expr
+    for a_ in ast.walk(batch.node):
+        if isinstance(a_, ast.Assign):
+            names = [t_.id for t_ in a_.targets if isinstance(t_, ast.Name)]
+            attrs = [t_ for t_ in a_.targets if isinstance(t_, ast.Attribute) and isinstance(t_.value, ast.Name) and t_.value.id == "self"]
+            for nm in names:
+                if id(a_) in in_loops:
+                    multi.add(nm)
+                    aliases.pop(nm, None)
+                elif attrs:
+                    _note(nm, attrs[0])
+                elif isinstance(a_.value, ast.Attribute) and isinstance(a_.value.value, ast.Name) and a_.value.value.id == "self":
+                    _note(nm, a_.value)
+                else:
+                    multi.add(nm)
+                    aliases.pop(nm, None)
+            for t_ in a_.targets:
+                if isinstance(t_, ast.Tuple) and isinstance(a_.value, ast.Tuple) and len(t_.elts) == len(a_.value.elts):
+                    for e_, v_ in zip(t_.elts, a_.value.elts):
+                        if isinstance(e_, ast.Name):
+                            if id(a_) not in in_loops and isinstance(v_, ast.Attribute) and isinstance(v_.value, ast.Name) and v_.value.id == "self":
+                                _note(e_.id, v_)
+                            else:
+                                multi.add(e_.id)
+                                aliases.pop(e_.id, None)
+        elif isinstance(a_, (ast.AugAssign, ast.For)):
+            for x in ast.walk(a_.target):
+                if isinstance(x, ast.Name):
+                    multi.add(x.id)
+                    aliases.pop(x.id, None)
+    # an alias is only as good as the attribute is stable: drop those whose attribute is re-assigned later in the routine by a separate statement
     own_attrs = {x.attr for g in cls.methods.values() if g.name in ("__init__",) or g.name.startswith("_set") for x in ast.walk(g.node)
                  if isinstance(x, ast.Attribute) and isinstance(x.ctx, ast.Store) and isinstance(x.value, ast.Name) and x.value.id == "self"}
     for loop in ast.walk(batch.node):
@@ -304,6 +361,7 @@ def protocol(chk, prog, cls, methods):
             arms = [s.value.body, s.value.orelse] if isinstance(s.value, ast.IfExp) else [s.value]
             pairs.extend((s, a_) for a_ in arms if isinstance(a_, ast.Call))
         for s, call in pairs:
+            call = _subst_aliases(call, aliases)
             fn = call.func
             if not (isinstance(fn, ast.Attribute) and isinstance(fn.value, ast.Name) and fn.value.id == "self"):
                 continue
